@@ -79,7 +79,7 @@ def Value.wf (v : Value) : Bool := v.ty.wf && v.v.wf v.ty
 mutual
 /-- every number leaf of the payload is one of `ns` -/
 def Payload.numsIn (ns : List Num) : Payload → Bool
-  | .n x => ns.contains x
+  | .n x => ns.any fun y => decide (y = x)
   | .marked _ r => Payload.numsIn ns r
   | .seq vs => Payload.numsInL ns vs
   | .smap _ vs => Payload.numsInL ns vs
